@@ -161,7 +161,9 @@ func runC14(c *CheckCtx) {
 
 var c13Funcs = []string{
 	"lib/core.count", "lib/core.empty_Q", "lib/core.first", "lib/core.rest", "lib/core.nth", "lib/core.cons", "lib/core.vec",
-	"lib/core.get", "lib/core.contains_Q", "lib/core.copy_hash_map", "lib/core.copy_set", "lib/core.copy_vector", "lib/core.keys", "lib/core.vals",
+	"lib/core.rename_keys", "lib/core.hash_map", "lib/core.apply", "lib/core.mAp", "lib/core.get_in", "lib/core.update", "lib/core.update_in", "lib/core.assoc_in",
+	"types.NewHashMap", "types.NewSet", "types.Nil_Q", "types.True_Q", "types.False_Q", "types.Keyword_Q", "types.String_Q", "types.NewKeyword", "types.Sequential_Q",
+	"lib/core.conj", "lib/core.mErge", "lib/core.concat", "lib/core.seq", "lib/core.assoc", "lib/core.dissoc", "lib/core.get", "lib/core.contains_Q", "lib/core.copy_hash_map", "lib/core.copy_set", "lib/core.copy_vector", "lib/core.keys", "lib/core.vals",
 	"lib/core.take", "lib/core.drop", "lib/core.drop_last", "lib/core.take_last", "lib/core.rAnge", "lib/core.subvec",
 }
 
